@@ -108,3 +108,70 @@ func ltRace() string {
 	}
 	return "mon=ok"
 }
+
+// lt race2: the update stream reads the clock just before an update-period boundary while the periodic
+// refresh for that boundary is due.  A sample's observation time must be taken inside the critical
+// section that decides which slot it is booked into: the first clock reading of the phase (the
+// stream's) lets the refresh go ahead and gives it a short time to finish — which it can only do if the
+// stream is not inside Latency's critical section — before it returns.  The statistics exported one
+// period later for the window that starts at the boundary must then be bounded by the latencies
+// observed in that window.  Found necessary by seeded change c15_seed9 (Compute reading the clock before
+// taking the lock).  Observation: the monitor's verdict only.
+func ltRace2() string {
+	saved := latency.Now
+	defer func() { latency.Now = saved }()
+	var cmu sync.Mutex
+	var fixed time.Time
+	var script func() time.Time
+	latency.Now = func() time.Time {
+		cmu.Lock()
+		s, f := script, fixed
+		cmu.Unlock()
+		if s != nil {
+			return s()
+		}
+		return f
+	}
+	set := func(t time.Time) { cmu.Lock(); fixed, script = t, nil; cmu.Unlock() }
+	sec := func(s, ms int64) time.Time { return time.Unix(s, ms*int64(time.Millisecond)) }
+
+	win := 2 * time.Second
+	lat := latency.New([]time.Duration{win}, nil)
+	m := &ltRaceMeta{m: map[string]int64{}}
+	set(sec(98, 0))
+	lat.Compute(sec(97, 0)) // 1s, observed at 98s
+	set(sec(100, 0))
+	lat.UpdateReset(m)
+
+	var calls int32
+	gotTime, refreshDone := make(chan struct{}), make(chan struct{})
+	cmu.Lock()
+	script = func() time.Time {
+		if atomic.AddInt32(&calls, 1) == 1 {
+			close(gotTime)
+			select {
+			case <-refreshDone:
+			case <-time.After(scaled(60 * time.Millisecond)): // the refresh is (correctly) excluded
+			}
+			return sec(101, 999)
+		}
+		return sec(102, 0)
+	}
+	cmu.Unlock()
+	var wg sync.WaitGroup
+	wg.Add(2)
+	go func() { defer wg.Done(); lat.Compute(sec(51, 999)) }() // the stream: 50s, observed at 101.999s
+	go func() { defer wg.Done(); <-gotTime; lat.UpdateReset(m); close(refreshDone) }()
+	wg.Wait()
+
+	set(sec(103, 0))
+	lat.Compute(sec(102, 0)) // 1s, observed at 103s
+	set(sec(104, 0))
+	lat.UpdateReset(m)
+	for _, typ := range []latency.StatType{latency.Avg, latency.Max, latency.Min} {
+		if v := m.get(latency.MetadataName(win, typ)); v != time.Second.Nanoseconds() {
+			return "mon=FAIL:window-holds-a-latency-observed-before-it"
+		}
+	}
+	return "mon=ok"
+}
